@@ -3,6 +3,7 @@ from .. import catalogue as cat
 from ..ast import strip, flat_stmts, calls, is_param, is_local, int_value, str_value, show, nodes
 from ..ir import walk
 from ..report import AnalysisBroken
+from .. import ownership as own
 
 LEVEL = 'other'
 STR = 'std::basic_string<char'
@@ -190,43 +191,20 @@ def run(ctx, prog):
         im = [f for f in prog.functions if f.n == 'init_mms' and 'MasterMS<%s>' % scalar in f.get('rec', '')]
         ctx.require(len(im) == 1, 'init_mms<%s> not found' % scalar)
         im = im[0]
-        key_ok = False
-        key_seen = False
-        for c in calls(im.body, name='operator[]'):
-            a0 = strip(c['args'][0], casts=True)
-            if a0.get('k') == 'member' and a0['n'] == '_master_map':
-                key_seen = True
-                key_ok = is_param(c['args'][1], 0)
-        for c in calls(im.body):
-            if c.get('n') in ('insert', 'emplace') and strip(c.get('obj') or {}, casts=True).get('n') == '_master_map':
-                key_seen = True
-                key_ok = any(is_param(x, 0) for x in walk(c) if isinstance(x, dict) and x.get('k') == 'param')
-        # parameter 0 must not be modified / normalised
-        touched = [c for c in calls(im.body) if c.get('n') in ('masa_map', 'uptolow', 'remove_line', 'remove_whitespace') and
-                   any(x.get('k') == 'param' and x.get('i') == 0 for x in walk(c))]
-        ctx.ob('C13.N5', 'handle-verbatim|' + sc, key_seen and key_ok and not touched, im.where,
-               'map key is not the unmodified handle parameter' if not touched else 'the handle parameter is normalised', sample='_master_map[my_name]')
-        # compared value
-        mapped = None
-        for s in flat_stmts(im.body):
-            if s.get('k') == 'decl':
-                for v in s['vars']:
-                    if STR in v['t'] and v.get('init') is not None:
-                        i = strip(v['init'], casts=True)
-                        i = strip(i['args'][0], casts=True) if i.get('k') == 'construct' and i['args'] else i
-                        if is_param(i, 1):
-                            mapped = v['id']
-        mm = [c for c in calls(im.body, name='masa_map')]
-        norm_ok = mapped is not None and len(mm) == 1 and strip(mm[0]['args'][0], casts=True).get('k') == 'un' and is_local(strip(mm[0]['args'][0], casts=True)['e'], mapped)
-        cmp_ok = False
-        for c in calls(im.body, name='operator=='):
-            ids = [x.get('id') for x in walk(c) if isinstance(x, dict) and x.get('k') == 'local']
-            if mapped in ids:
-                cmp_ok = True
-        ctx.ob('C13.N5', 'name-normalised|' + sc, norm_ok and cmp_ok, im.where,
-               'candidates are not compared with masa_map(copy of the name parameter)', sample='mapped_name=masa_name; masa_map(&mapped_name); name == mapped_name')
+        # decided on the ownership simulation of init_mms (sa/ownership.py): one path per matching candidate
+        res, info = own.check_init(prog, im, scalar)
+        inc = bool(res['complete'])
+
+        def verdict(problems):
+            return (not problems) if not inc else (False if problems else None)
+        ctx.ob('C13.N5', 'handle-verbatim|' + sc, verdict(res['key']), im.where, '; '.join(res['key'][:2]) or 'not decided: ' + '; '.join(res['complete'][:2]),
+               sample='%d returning paths install under the unmodified handle parameter' % info['returning'])
+        ctx.ob('C13.N5', 'name-normalised|' + sc, verdict(res['name-match']), im.where, '; '.join(res['name-match'][:2]) or 'not decided: ' + '; '.join(res['complete'][:2]),
+               sample='each installed candidate is the one whose name equals masa_map(name parameter)')
+        unmatched = res['one-install'] + res['fatal-registers']
+        ctx.ob('C13.N5', 'no-match-is-fatal|' + sc, verdict(unmatched), im.where, '; '.join(unmatched[:2]) or 'not decided: ' + '; '.join(res['complete'][:2]),
+               sample='the only paths that install nothing end in masa_exit; no terminating path installs anything')
         sm = [f for f in prog.functions if f.n == 'select_mms' and 'MasterMS<%s>' % scalar in f.get('rec', '')]
         ctx.require(len(sm) == 1, 'select_mms<%s> not found' % scalar)
-        fc = [c for c in calls(sm[0].body, name='find') if strip(c.get('obj') or {}, casts=True).get('n') == '_master_map']
-        ctx.ob('C13.N5', 'select-verbatim|' + sc, len(fc) == 1 and is_param(fc[0]['args'][0], 0), sm[0].where, 'select_mms does not look up its parameter verbatim',
-               sample='_master_map.find(my_name)')
+        sp, ngood = own.check_select(prog, sm[0], scalar)
+        ctx.ob('C13.N5', 'select-verbatim|' + sc, not sp, sm[0].where, 'select_mms: ' + '; '.join(sp[:2]), sample='_master_pointer = _master_map.find(my_name)->second')
